@@ -88,6 +88,13 @@ def discover(repo: Repo, clsname: str) -> Srv:
                 r, me = method_of(n)
                 if me == 'pop' and r is not None and sc.canon(r) == ledger:
                     gather = gather or f
+    # the gather function by role: the target of the thread kept in `self._gather_thread`
+    for g in mod.functions.values():
+        for n in walk_deep_func(g.node):
+            if isinstance(n, ast.Assign) and any(dotted(t) == 'self._gather_thread' for t in n.targets) and isinstance(n.value, ast.Call):
+                tgt = kwarg(n.value, 'target')
+                if tgt is not None and dotted(tgt) and dotted(tgt).startswith('self.') and cls.has_method(dotted(tgt).split('.', 1)[1]):
+                    gather = cls.method(dotted(tgt).split('.', 1)[1])
     if enqueue is None or gather is None:
         raise AnchorError(f'{clsname}: admission function / gather function not found via the ledger `{ledger}`')
     # admission condition: receiver of .wait( in the admission function
@@ -353,6 +360,11 @@ def gather_cfg(ck: Checker, s: Srv):
                 R.add('KeyError')
             if me in ('set_result', 'set_exception') and isinstance(r, ast.Name):
                 R.add('InvalidStateError')
+        for x in walk_shallow(a):
+            # `del ledger[uid]` after the successful lookup of the same entry cannot fail: the gather
+            # loop is the only deleter (C06-4); only the lookup itself is fallible
+            if isinstance(x, ast.Subscript) and isinstance(x.ctx, ast.Load) and sc.canon(x.value) == s.ledger:
+                R.add('KeyError')
         return R
 
     cfg = build_cfg(s.gather, ck.repo, make_fallible(sc, iters=set(), calls=set(), extra=extra))
@@ -360,16 +372,55 @@ def gather_cfg(ck: Checker, s: Srv):
     return cfg, sc
 
 
+def _ledger_lookup(n: Node, sc: Scope, s: Srv):
+    """the call / subscript by which node n obtains the future from the ledger, else None"""
+    if not isinstance(n.ast, ast.Assign):
+        return None
+    v = n.ast.value
+    if isinstance(v, ast.Call) and method_of(v)[1] in ('pop', 'get') and method_of(v)[0] is not None and sc.canon(method_of(v)[0]) == s.ledger:
+        return v
+    if isinstance(v, ast.Subscript) and sc.canon(v.value) == s.ledger:
+        return v
+    return None
+
+
+def _removals(cfg: CFG, sc: Scope, s: Srv):
+    out = set()
+    for n in cfg.nodes:
+        a = header_expr(n)
+        if a is None:
+            continue
+        if any(method_of(c)[1] in ('pop', 'popitem') and method_of(c)[0] is not None and sc.canon(method_of(c)[0]) == s.ledger for c in calls_in(a)):
+            out.add(n.id)
+        if isinstance(n.ast, ast.Delete) and any(isinstance(t, ast.Subscript) and sc.canon(t.value) == s.ledger for t in n.ast.targets):
+            out.add(n.id)
+    return out
+
+
+def _resolutions(cfg: CFG, loop_id):
+    out = set()
+    for n in cfg.nodes:
+        a = header_expr(n)
+        if a is None or loop_id not in n.loops:
+            continue
+        for c in calls_in(a):
+            r, me = method_of(c)
+            d = dotted(c.func) or ''
+            if (me in ('set_result', 'set_exception') and isinstance(r, ast.Name)) or (d.endswith('call_soon_threadsafe') and c.args and isinstance(c.args[0], ast.Attribute) and c.args[0].attr in ('set_result', 'set_exception')):
+                out.add(n.id)
+    return out
+
+
 def gather_loop(cfg: CFG, sc: Scope, s: Srv):
-    """(loop header node, dequeue node, pop node)"""
+    """(loop header node, dequeue node, ledger lookup node)"""
     for n in cfg.nodes:
         if n.kind == 'test' and n.extra.get('loop') and n.pending is None:
             body = [k for k in cfg.nodes if n.id in k.loops]
-            pops = [k for k in body if any(method_of(c)[1] == 'pop' and method_of(c)[0] is not None and sc.canon(method_of(c)[0]) == s.ledger for c in calls_in(header_expr(k)) if header_expr(k) is not None)] if body else []
-            gets = [k for k in body if isinstance(k.ast, ast.Assign) and isinstance(unwrap_await(k.ast.value), ast.Call) and method_of(unwrap_await(k.ast.value))[1] == 'get']
-            if pops and gets:
-                return n, gets[0], pops[0]
-    raise AnchorError(f'{s.gather.key}: gather loop (get + ledger pop) not found')
+            looks = [k for k in body if _ledger_lookup(k, sc, s) is not None]
+            gets = [k for k in body if isinstance(k.ast, ast.Assign) and isinstance(unwrap_await(k.ast.value), ast.Call) and method_of(unwrap_await(k.ast.value))[1] == 'get' and _ledger_lookup(k, sc, s) is None]
+            if looks and gets:
+                return n, gets[0], looks[0]
+    raise AnchorError(f'{s.gather.key}: gather loop (get + ledger lookup) not found')
 
 
 def _notifiers(s: Srv):
@@ -429,9 +480,14 @@ def check_slot_return(ck: Checker, rid: str, s: Srv):
     loop, getn, popn = gather_loop(cfg, sc, s)
     # (a) the pop is unconditional: every path from the dequeue to the next dequeue that is not the
     #     sentinel path passes through the pop.  Sentinel path = leaves the loop.
-    back_srcs = {src for (src, dst) in cfg.back_edges if dst == loop.id}
-    p = path_avoiding(cfg, cfg.normal_succ(getn.id), {loop.id}, avoid={popn.id}, edge_ok=lambda e: True)
-    ck.ob(rid, s.gather, popn.ast, p is None, 'every message that is not the sentinel pops its ledger entry before anything else is decided' if p is None else 'a message can be consumed without popping its ledger entry (slot leaked)', path=fmt_path(cfg, [getn.id] + p) if p else '')
+    removals = _removals(cfg, sc, s)
+    ck.need(removals, f'{s.gather.key}: the ledger entry is never removed')
+    # a failed lookup (unknown id) has nothing to remove
+    p = path_avoiding(cfg, cfg.normal_succ(getn.id), {loop.id}, avoid=removals, edge_ok=lambda e: not (e.src == popn.id and e.kind == 'exc'))
+    ck.ob(rid, s.gather, popn.ast, p is None, 'every message that is not the sentinel removes its ledger entry, whatever the state of the future' if p is None else 'a message can be consumed without removing its ledger entry (slot leaked for ever)', path=fmt_path(cfg, [getn.id] + p) if p else '')
+    res_nodes = _resolutions(cfg, loop.id)
+    p = path_avoiding(cfg, cfg.normal_succ(getn.id), res_nodes, avoid=removals) if res_nodes else None
+    ck.ob(rid, s.gather, (popn.lineno, 'slot returned before the result emerges'), p is None and bool(res_nodes), 'the ledger entry is removed before the future is resolved: when the caller sees its result the slot is already back' if p is None and res_nodes else 'the future is resolved before its ledger entry is removed: the caller can have its result while the slot is still occupied (an idle server shows a non-zero backlog and rejects the next request)', path=fmt_path(cfg, [getn.id] + p) if p else '')
     # (b) exactly one signal between a successful pop and the next dequeue
     notifiers = _notifiers(s)
     ck.need(notifiers, f'{s.gather.key}: no helper notifying `{s.cond}` found')
@@ -571,10 +627,11 @@ def check_unknown_id_tolerated(ck: Checker, rid: str, s: Srv):
     cfg, sc = gather_cfg(ck, s)
     loop, getn, popn = gather_loop(cfg, sc, s)
     outs = [e for e in cfg.succ[popn.id] if e.kind == 'exc' and 'KeyError' in (e.data or ())]
-    call = [c for c in calls_in(header_expr(popn)) if method_of(c)[1] == 'pop'][0]
-    if len(call.args) >= 2:
-        # pop(uid, default): the None path must not dereference
-        ck.ob(rid, s.gather, popn.ast, True, 'ledger pop has a default: an unknown id cannot raise')
+    call = _ledger_lookup(popn, sc, s)
+    if isinstance(call, ast.Call) and (len(call.args) >= 2 or method_of(call)[1] == 'get'):
+        # pop(uid, default) / get(uid): an unknown id cannot raise here; the None must then be tested
+        g = [n for n in cfg.nodes if n.kind == 'test' and isinstance(n.ast, ast.Compare) and is_name(n.ast.left, popn.ast.targets[0].id if isinstance(popn.ast.targets[0], ast.Name) else '') and is_none(n.ast.comparators[0])]
+        ck.ob(rid, s.gather, popn.ast, bool(g), 'ledger lookup has a default and the result is tested for None' if g else 'ledger lookup has a default but the missing entry (None) is used without a test')
         return
     ok = bool(outs) and all(loop.id in cfg.nodes[e.dst].loops for e in outs)
     if ok:
@@ -680,9 +737,21 @@ def check_gather_pairing(ck: Checker, rid: str, s: Srv):
         ck.ob(rid, s.gather, unpack.ast, False, probs[0])
         return
     uid, y = elts[0].id, elts[1].id
-    popcall = [c for c in calls_in(header_expr(popn)) if method_of(c)[1] == 'pop'][0]
-    if not (popcall.args and is_name(popcall.args[0], uid)):
-        probs.append(f'the ledger is popped with `{norm_text(popcall.args[0]) if popcall.args else ""}`, not with this message\'s id `{uid}`')
+    popcall = _ledger_lookup(popn, sc, s)
+    keyexpr = (popcall.args[0] if popcall.args else None) if isinstance(popcall, ast.Call) else popcall.slice
+    if not (keyexpr is not None and is_name(keyexpr, uid)):
+        probs.append(f'the ledger is looked up with `{norm_text(keyexpr) if keyexpr is not None else ""}`, not with this message\'s id `{uid}`')
+    for rn in _removals(cfg, sc, s):
+        a = cfg.nodes[rn].ast
+        ks = []
+        for x in ast.walk(a):
+            if isinstance(x, ast.Call) and method_of(x)[1] == 'pop' and x.args:
+                ks.append(x.args[0])
+            if isinstance(x, ast.Subscript) and isinstance(x.ctx, ast.Del):
+                ks.append(x.slice)
+        for k in ks:
+            if not is_name(k, uid):
+                probs.append(f'L{cfg.nodes[rn].lineno}: the ledger entry removed is `{norm_text(k)}`, not this message\'s id `{uid}`')
     futn = popn.ast.targets[0].id if isinstance(popn.ast, ast.Assign) and isinstance(popn.ast.targets[0], ast.Name) else None
     if futn is None:
         probs.append('the popped future is not bound to a name')
